@@ -1,9 +1,10 @@
 (* C09 — multi-threaded serving: the part that is logic.  For every global history (any interleaving
    the scheduler produces of the connections' events over w workers) every request receives exactly
-   one response computed from that request alone.  Data-race freedom of the C++ and termination of
-   shutdown() are runtime properties: decided by the ThreadSanitizer harness, not by a theorem. *)
+   one response computed from that request alone.  The shutdown protocol of one loop (flag then wake-up, checked at every poll return) is
+   modelled in ShutdownModel.v.  Data-race freedom of the C++ and the joins are runtime properties:
+   decided by the ThreadSanitizer harness, not by a theorem. *)
 From Coq Require Import List Arith.
-Require Import DispatchModel DispatchLemmas.
+Require Import DispatchModel DispatchLemmas ShutdownModel ShutdownLemmas.
 Import ListNotations.
 
 Theorem C09_one_response_from_own_request_partial : forall (req resp : Type) (handle : req -> resp) (w : nat) h c,
@@ -16,3 +17,17 @@ Theorem C09_interleaving_independent_partial : forall (req resp : Type) (handle 
   forall c, responses _ w (run _ _ handle w h1) c = responses _ w (run _ _ handle w h2) c.
 Proof. exact interleaving_independent. Qed.
 Print Assumptions C09_interleaving_independent_partial.
+
+(* shutdown(): the flag is stored before the wake-up descriptor is made readable, so at no moment of
+   any history is a wake-up pending without the flag being visible ... *)
+Theorem C09_no_lost_wakeup_partial : forall h, ordered false h = true -> wake (srun h) = true -> flag (srun h) = true.
+Proof. exact no_lost_wakeup. Qed.
+Print Assumptions C09_no_lost_wakeup_partial.
+
+(* ... and once shutdown() has run, whatever happens before the loop's poll returns and afterwards,
+   that return ends the loop (the wake-up stays readable, so the poll does return): issued at any
+   moment - idle, with events ready, with events arriving - the loop terminates *)
+Theorem C09_shutdown_ends_loop_partial : forall h more1 more2,
+  flag (srun h) = true -> wake (srun h) = true -> ph (srun (h ++ more1 ++ SPollReturn :: more2)) = Exited.
+Proof. exact shutdown_terminates. Qed.
+Print Assumptions C09_shutdown_ends_loop_partial.
